@@ -101,6 +101,7 @@ type Exec struct {
 	stepTO  time.Duration
 
 	stepReqs, stepMuts int
+	saved              map[string][]string // labelled results of version steps
 }
 
 var (
@@ -165,7 +166,7 @@ func nthPerm(xs []string, k int) []string {
 
 func NewExec(tr *Tracer, sc *Scenario) *Exec {
 	scnSeq++
-	e := &Exec{tr: tr, sc: sc, clients: map[string]*cli{}, snaps: map[string]map[string][]byte{}, stepTO: 30 * time.Second}
+	e := &Exec{tr: tr, sc: sc, clients: map[string]*cli{}, snaps: map[string]map[string][]byte{}, stepTO: 30 * time.Second, saved: map[string][]string{}}
 	e.cols = sc.Cfg.strs("cols")
 	if len(e.cols) == 0 {
 		e.cols = []string{"a", "b"}
@@ -381,7 +382,7 @@ func (e *Exec) emit(ev string, s Step, extra map[string]interface{}) {
 			m["dm"] = e.client(c).fc.totMuts() - e.stepMuts
 		}
 	}
-	for _, k := range []string{"fix", "tag", "phase"} {
+	for _, k := range []string{"fix", "tag", "phase", "same", "same_as_begin"} {
 		if s.has(k) {
 			m[k] = s[k]
 		}
@@ -575,6 +576,9 @@ func (e *Exec) doStmt(s Step) {
 		}
 	}
 	out["intx"] = s.num("intx", 0)
+	if s.has("keep_wt") {
+		out["keep_wt"] = 1
+	}
 	e.emit("stmt", s, out)
 }
 
@@ -622,7 +626,20 @@ func (e *Exec) doVersion(s Step) {
 	if err != nil {
 		v = []string{}
 	}
-	e.emit("version", s, map[string]interface{}{"outcome": classifyErr(err), "err": errStr(err), "names": v})
+	if s.has("save") && err == nil {
+		e.saved[s.str("save")] = v
+	}
+	out := map[string]interface{}{"outcome": classifyErr(err), "err": errStr(err), "names": v}
+	if s.has("save") {
+		out["save"] = s.str("save")
+		rows, rerr := e.tableRows(c)
+		if rerr != nil {
+			rows = [][]string{}
+		}
+		out["rows"] = rows
+		out["rows_outcome"] = classifyErr(rerr)
+	}
+	e.emit("version", s, out)
 }
 
 func (e *Exec) versionArg(toks []string) string {
@@ -638,16 +655,34 @@ func (e *Exec) versionArg(toks []string) string {
 	return string(b)
 }
 
+// vlist resolves a version list given literally (key) or by reference to a
+// saved version step (key_ref).
+func (e *Exec) vlist(s Step, key string) ([]string, bool) {
+	if s.has(key + "_ref") {
+		v, ok := e.saved[s.str(key+"_ref")]
+		if !ok {
+			panic("harness: no saved version " + s.str(key+"_ref"))
+		}
+		return v, true
+	}
+	if s.has(key) {
+		return s.strs(key), true
+	}
+	return []string{}, false
+}
+
 func (e *Exec) doChanges(s Step) {
 	c := e.client(s.str("c"))
 	e.tabSeq++
 	name := fmt.Sprintf("chg%d_%d", scnSeq, e.tabSeq)
 	args := []string{"table='" + c.table + "'"}
-	args = append(args, "from='"+e.versionArg(s.strs("from"))+"'")
-	if s.has("to") {
-		args = append(args, "to='"+e.versionArg(s.strs("to"))+"'")
+	from, _ := e.vlist(s, "from")
+	to, hasTo := e.vlist(s, "to")
+	args = append(args, "from='"+e.versionArg(from)+"'")
+	if hasTo {
+		args = append(args, "to='"+e.versionArg(to)+"'")
 	}
-	out := map[string]interface{}{"from": s.strs("from"), "to": s.strs("to"), "has_to": s.has("to")}
+	out := map[string]interface{}{"from": from, "to": to, "has_to": hasTo}
 	_, err := e.exec(c, "create virtual table "+name+" using s3db_changes ("+strings.Join(args, ", ")+")")
 	rows := [][]string{}
 	if err == nil {
@@ -690,12 +725,18 @@ func (e *Exec) doConnSet(s Step) {
 	attr := s.str("attr")
 	var err error
 	val := "NULL"
+	tok := s.num("t", -1)
 	if s.has("t") {
 		val = TokTime(s.num("t", 0)).Format(s3db.SQLiteTimeFormat)
 		_, err = e.exec(c, "update s3db_conn set "+attr+"=?", val)
 	} else if s.has("raw") {
 		val = s.str("raw")
 		_, err = e.exec(c, "update s3db_conn set "+attr+"=?", val)
+		if tm, perr := time.Parse(s3db.SQLiteTimeFormat, val); perr == nil {
+			tok = e.tr.TimeToken(tm)
+		} else {
+			tok = -2
+		}
 	} else {
 		_, err = e.exec(c, "update s3db_conn set "+attr+"=NULL")
 	}
@@ -709,13 +750,13 @@ func (e *Exec) doConnSet(s Step) {
 			}
 		}
 	}
-	e.emit("conn_set", s, map[string]interface{}{"attr": attr, "t": s.num("t", -1), "val": val, "outcome": classifyErr(err), "err": errStr(err)})
+	e.emit("conn_set", s, map[string]interface{}{"attr": attr, "t": tok, "val": val, "outcome": classifyErr(err), "err": errStr(err)})
 }
 
 func (e *Exec) doConnGet(s Step) {
 	c := e.client(s.str("c"))
 	r, err := e.query(c, "select deadline, write_time from s3db_conn")
-	out := map[string]interface{}{"outcome": classifyErr(err), "err": errStr(err), "deadline": "?", "write_time": "?"}
+	out := map[string]interface{}{"outcome": classifyErr(err), "err": errStr(err), "deadline": -3, "write_time": -3}
 	if err == nil && len(r) == 1 {
 		conv := func(l string) interface{} {
 			if l == "NULL" {
@@ -726,7 +767,7 @@ func (e *Exec) doConnGet(s Step) {
 					return e.tr.TimeToken(tm)
 				}
 			}
-			return l
+			return -2
 		}
 		out["deadline"] = conv(r[0][0])
 		out["write_time"] = conv(r[0][1])
@@ -839,6 +880,10 @@ func (e *Exec) runStep(s Step) {
 		e.doReach(s)
 	case "dump":
 		e.doDump(s)
+	case "kvdump":
+		e.doKVDump(s)
+	case "prefill":
+		e.doPrefill(s)
 	case "plan":
 		e.doPlan(s)
 	case "heal":
@@ -890,4 +935,25 @@ func (e *Exec) RunSeq() bool {
 		}
 	}
 	return true
+}
+
+// doPrefill inserts n rows (integer keys base, base+stride, ...) in one
+// transaction so that the tree has several levels; each row is logged as an
+// ordinary statement event.
+func (e *Exec) doPrefill(s Step) {
+	c := e.client(s.str("c"))
+	n := s.num("n", 10)
+	base := s.num("base", 1000)
+	stride := s.num("stride", 1)
+	wt := s.num("wt", 0)
+	e.doTx(Step{"op": "begin", "c": c.id})
+	for i := 0; i < n; i++ {
+		k := base + i*stride
+		cols := map[string]interface{}{}
+		for _, cn := range e.cols {
+			cols[cn] = fmt.Sprintf("t:%s_p%d", cn, k)
+		}
+		e.doStmt(Step{"op": "stmt", "c": c.id, "id": fmt.Sprintf("p%d", k), "kind": "ins", "key": fmt.Sprintf("i:%d", k), "cols": cols, "wt": float64(wt), "intx": float64(1)})
+	}
+	e.doTx(Step{"op": "commit", "c": c.id})
 }
